@@ -98,12 +98,31 @@ def run_program(P, tag, work, bbexe, deexe, flags=(), timeout=25, bb_text=None, 
                 r.meta[f] = b''
     # read both final files back with the DEFAULT library
     r.rb = {}
+    r.timed_out = (r.bb_rc == -9 or r.de_rc == -9)
     for sub in ('bb', 'de'):
         env = {'PNC_DIR': os.path.join(d, sub), 'PNC_OUT': os.path.join(d, sub, 'rb')}
         rc, out = run_exe(deexe, 1, os.path.join(d, sub, 'rb.txt'), env, os.path.join(d, sub), timeout)
+        r.timed_out = r.timed_out or rc == -9
         r.rb[sub] = read_log(os.path.join(d, sub, 'rb.0'))
     shutil.rmtree(d, ignore_errors=True)
     return r
+
+
+def run_all(progs, work, bbexe, deexe, jobs=8, timeout=60, long_timeout=300):
+    """run every program; a program whose run hit the watchdog is run again alone with a long
+    watchdog (the machine may be heavily loaded): only a repeated timeout counts as a hang"""
+    results = {}
+    def one(x):
+        tag, P, flags = x
+        return tag, run_program(P, tag, work, bbexe, deexe, flags, timeout=timeout)
+    with cf.ThreadPoolExecutor(max_workers=jobs) as ex:
+        for tag, r in ex.map(one, progs):
+            results[tag] = r
+    again = [x for x in progs if results[x[0]].timed_out]
+    for tag, P, flags in again:
+        results[tag] = run_program(P, tag + '-again', work, bbexe, deexe, flags, timeout=long_timeout)
+        results[tag].retried = True
+    return results, len(again)
 
 
 # ---------------------------------------------------------------------------------- decoding
@@ -142,6 +161,8 @@ def parse_meta(blob, channel, shared):
     plen = struct.unpack('<i', blob[base + 72 + blen + 1:base + 72 + blen + 5])[0]
     begin = 80 + blen + 1 + 4 + plen + 1
     begin += (16 - begin % 16) % 16
+    if n == begin:
+        return []       # field at 56 still holds entry_begin: nothing was logged or flushed since the log was created
     out = []; p = base + begin
     for _ in range(n):
         e = blob[p:p + 40]
@@ -456,7 +477,7 @@ def judge_model(P, r, mobs, skip):
                 continue
             got = parse_meta(blob, k, P.cfg.shared)
             if got is None or [tuple(x) for x in got] != entries[k]:
-                mm('log', 'rank %d metadata log %s, model %s' % (k, got, entries[k]))
+                mm('log', 'rank %d metadata log %s (%s, %d bytes, head %s), model %s' % (k, got, name, len(blob), blob[:8], entries[k]))
     return F
 
 
@@ -551,13 +572,8 @@ def run(ctx):
     work = C.scratch('c12.')
     nrand = 170 if ctx.tier == 'quick' else 2400
     progs = make_programs(ctx, nrand)
-    results = {}
-    def one(x):
-        tag, P, flags = x
-        return tag, run_program(P, tag, work, bbexe, deexe, flags)
-    with cf.ThreadPoolExecutor(max_workers=8) as ex:
-        for tag, r in ex.map(one, progs):
-            results[tag] = r
+    results, nretry = run_all(progs, work, bbexe, deexe)
+    ctx.cov['programs_rerun_after_watchdog'] = nretry
     mres = {}
     if proof_ok or os.path.exists(os.path.join(C.COQ, 'BurstBuffer.vo')):
         mres = run_model([(tag, P.coq_case(flags)) for tag, P, flags in progs], work)
